@@ -25,13 +25,29 @@ func NewIndexSeed(dstFile string, srcFile string, index Index) (*FileSeed, error
 		srcFile:    srcFile,
 		pos:        make(map[ChunkID][]int),
 		index:      index,
-		canReflink: CanClone(dstFile, srcFile),
+		canReflink: !sameFile(dstFile, srcFile) && CanClone(dstFile, srcFile),
 		isInvalid:  false,
 	}
 	for i, c := range s.index.Chunks {
 		s.pos[c.ID] = append(s.pos[c.ID], i)
 	}
 	return &s, nil
+}
+
+// sameFile returns true if both paths exist and refer to the same file. Used to
+// avoid block cloning when a seed is the target itself, like the previous
+// version of a file that is updated in place. The kernel refuses to clone
+// overlapping ranges within one file, those have to be copied.
+func sameFile(a, b string) bool {
+	ia, err := os.Stat(a)
+	if err != nil {
+		return false
+	}
+	ib, err := os.Stat(b)
+	if err != nil {
+		return false
+	}
+	return os.SameFile(ia, ib)
 }
 
 // LongestMatchWith returns the longest sequence of chunks anywhere in Source
